@@ -27,6 +27,7 @@ func guardedMarshalBody(m socket.Message) (b []byte, o outcome, msg string) {
 	if err != nil {
 		return nil, oErr, err.Error()
 	}
+	trackEncoding("message-body", out)
 	return append([]byte{}, out...), oOK, ""
 }
 
